@@ -93,7 +93,7 @@ package server
 
 //@ unit Server.newClient
 //@ requires csWF(s)
-//@ ensures[dup] id in old(dom(s.cs)) ==> result0 != nil && dom(s.cs) == old(dom(s.cs))
+//@ ensures[dup] id in old(dom(s.cs)) ==> result0 != nil && dom(s.cs) == old(dom(s.cs)) && s.cs[id] == old(s.cs[id])
 //@ ensures[new] !(id in old(dom(s.cs))) ==> result0 == nil && id in dom(s.cs) && fresh(s.cs[id]) && fresh(s.cs[id].params)
 //@   && !s.cs[id].setParams && s.cs[id].lastElecID == nil
 //@   && !s.cs[id].params.Persist && !s.cs[id].params.ExpectElecID && !s.cs[id].params.FIBAck
@@ -224,6 +224,7 @@ package server
 //@ unit modifyEntry
 //@ requires r != nil ==> ribReady(r)
 //@ requires[wire-valid] op != nil ==> opWF(op)
+//@ requires[own-instance] op != nil ==> ni == op.GetNetworkInstance()
 //@ ensures[nil-op] op == nil ==> result1 != nil && result0 == nil
 //@ ensures[holders] r != nil ==> ribReady(r)
 //@ ensures[one-of] (result0 == nil) != (result1 == nil)
@@ -289,3 +290,13 @@ package server
 //@ ensures[election-untouched] s.curElecID == old(s.curElecID) && s.curMaster == old(s.curMaster)
 //@ assigns ribState, hookCount
 //@ props C08 C12:safety
+
+// Session footprint: whatever happens on the stream, the RPC leaves the session table as it found it
+// (the state created for the session is removed on every exit after newClient succeeded).
+//@ unit Server.Modify
+//@ requires csWF(s)
+//@ ensures[footprint] dom(s.cs) == old(dom(s.cs))
+//@ ensures[other-sessions-untouched] forall k in old(dom(s.cs)) :: s.cs[k] == old(s.cs[k])
+//@ ensures[wf] csWF(s)
+//@ assigns contents(s.cs), spawned
+//@ props C09 C11:lock
